@@ -357,10 +357,11 @@ class Ctx:
             if l is r:
                 continue
             # first without the path condition (a stronger claim, usually an easier query), then with it
-            out = self.solver.prove_equal(base_pre, l, r, skip_den=skip_den) if len(pre) > len(base_pre) else {"status": "skip"}
+            nb = 30.0 if kind == "grad" else 0.3
+            out = self.solver.prove_equal(base_pre, l, r, skip_den=skip_den, norm_budget=nb) if len(pre) > len(base_pre) else {"status": "skip"}
             res["queries"] += 1
             if out["status"] != "unsat":
-                out = self.solver.prove_equal(pre, l, r, skip_den=skip_den)
+                out = self.solver.prove_equal(pre, l, r, skip_den=skip_den, norm_budget=0.3 if out["status"] != "skip" else nb)
                 res["queries"] += 1
             st = out["status"]
             if st == "unsat":
